@@ -15,10 +15,12 @@ for n in names:
     r = subprocess.run(f"git -C /repo apply {d}/patch.diff", shell=True, capture_output=True, text=True)
     if r.returncode:
         print(n, "-> patch does not apply:", r.stderr[:200]); continue
+    ev = f"{V}/evidence/{pid}.json"; keep = open(ev, "rb").read() if os.path.exists(ev) else None
     try:
         p = subprocess.run(f"cd {V} && timeout 1500 /venv/bin/python harness/check.py {pid} quick", shell=True, capture_output=True, text=True)
     finally:
         subprocess.run("git -C /repo checkout -- .", shell=True)
+        if keep is not None: open(ev, "wb").write(keep)          # evidence must describe the unchanged tree
     lines = [l for l in p.stdout.splitlines() if l.startswith("VIOLATION") or l.startswith(pid + " quick")]
     caught = p.returncode == 1 and any(l.startswith("VIOLATION") for l in lines)
     concrete = any(l.startswith("VIOLATION") and "no-failing-input-found" not in l for l in lines)
